@@ -699,7 +699,7 @@ func genBotWorker(c *Ctx) {
 		mk("last", "o", "MTato", n-1, 3)
 	}
 	scns = append(fin, scns...)
-	budget := time.Duration(envInt("VERIF_C07_BUDGET_S", map[bool]int{false: 20, true: 900}[c.Thorough()])) * time.Second
+	budget := time.Duration(envInt("VERIF_C07_BUDGET_S", map[bool]int{false: 8, true: 900}[c.Thorough()])) * time.Second
 	botDeadline = time.Now().Add(budget)
 	caseID := shard * 10000000
 	for _, scn := range scns {
